@@ -347,15 +347,17 @@ class XPathFunction(XPathToken):
 
         if self.label != 'partial function':
             def evaluate(context: ta.ContextType = None) -> 'XPathFunction':
-                return self
+                # Each evaluation yields a new function item, with the fixed arguments
+                # evaluated in the scope of the partial application.
+                func = copy(self)
+                func._items = [
+                    tk if tk.symbol == '?' and not tk else
+                    ValueToken(self.parser, value=tk.evaluate(context)) for tk in self._items
+                ]
+                return func
 
             def select(context: ta.ContextType = None) -> Iterator['XPathFunction']:
-                yield self
-
-            if self.__class__.evaluate is not XPathToken.evaluate:
-                setattr(self, '_partial_evaluate', self.evaluate)
-            if self.__class__.select is not XPathToken.select:
-                setattr(self, '_partial_select', self.select)
+                yield evaluate(context)
 
             setattr(self, 'evaluate', evaluate)
             setattr(self, 'select', select)
@@ -387,7 +389,11 @@ class XPathFunction(XPathToken):
         return wrapper
 
     def _partial_evaluate(self, context: ta.ContextType = None) -> ta.ValueType:
-        return xlist(self._partial_select(context))
+        # Use the methods of the class with this instance (that can be a copy of the token of
+        # the expression): the instance attributes are replaced when it becomes a partial function.
+        if self.__class__.evaluate is not XPathToken.evaluate:
+            return self.__class__.evaluate(self, context)
+        return xlist(self.__class__.select(self, context))
 
     def _partial_select(self, context: ta.ContextType = None) -> Iterator[ta.ItemType]:
         item = self._partial_evaluate(context)
